@@ -46,7 +46,7 @@ def run_mcs(jobs):
 
 def standard(prop, tier, mc_jobs, driver, trace_module, trace_cfg, canaries, level, rule,
              assumptions, trigger=None, driver_args=(), deque=False, sample_n=3, nshards=None,
-             extra_cov=None, trusted=None, post=None, env=None, wd=None, traces=None, summaries=None):
+             extra_cov=None, trusted=None, post=None, env=None, wd=None, traces=None, summaries=None, clause_filter=None):
     """canaries: list of functions(traces) -> (corrupted copy of one trace, description) or None.
     trigger: function(trace)->bool, the property's trigger kind (non-trivial traces)."""
     oc = Outcome(prop, tier)
@@ -79,10 +79,11 @@ def standard(prop, tier, mc_jobs, driver, trace_module, trace_cfg, canaries, lev
     for ctr, desc in can:
         v = ver.pop(ctr['id'])
         canary_report.append({'corruption': desc, 'verdict': v[0], 'clauses': v[1]})
-        if v[0] == 'OK':
+        if v[0] == 'OK' or (clause_filter and v[0] == 'VIOLATION' and not any(clause_filter(c) for c in v[1])):
             raise MachineryError('binding canary accepted: %s' % desc)
     nviol = 0
     drift = {}
+    other = {}
     rejected = []
     by_id = {tr['id']: tr for tr in traces}
     for tid, (v, clauses) in sorted(ver.items()):
@@ -93,6 +94,9 @@ def standard(prop, tier, mc_jobs, driver, trace_module, trace_cfg, canaries, lev
             for c in clauses:
                 if c.startswith('DRIFT'):
                     drift[c] = drift.get(c, 0) + 1
+                    continue
+                if clause_filter and not clause_filter(c):
+                    other[c] = other.get(c, 0) + 1
                     continue
                 if oc.violation(c, tr.get('cls', 'any'), {'trace_id': tid, 'clauses': clauses, 'cfg': tr.get('cfg')}, tr):
                     nviol += 1
@@ -126,6 +130,7 @@ def standard(prop, tier, mc_jobs, driver, trace_module, trace_cfg, canaries, lev
         'samples': [_shrink(tr) for tr in traces[:sample_n]],
         'canaries': canary_report,
         'drift_from_detailed_model': drift,
+        'clauses_of_other_properties_seen': other,
         'driver_counts': tot,
         'trusted_base': trusted or [],
         'repo': REPO,
